@@ -443,32 +443,74 @@ Proof.
   unfold nextIdle. pose proof (kaEff_le_idleEff s pto Hs Hp). pose proof (idleStart_ge_lastRecv s). lia.
 Qed.
 
-(** after the handshake the timer is never armed later than the idle-timeout instant ... *)
-Lemma deadline_le_idle : forall s pto ack loss, sane s -> 0 <= pto -> hsComplete s = true ->
-  maybeResetTimer s pto ack loss <= nextIdle s pto.
+Lemma arm_le : forall s d ack loss, arm s d ack loss <= d.
 Proof.
-  intros s pto ack loss Hs Hp Hh. unfold maybeResetTimer. rewrite Hh. cbn [negb].
-  pose proof (base_deadline_le_idle s pto Hs Hp Hh) as B.
-  set (d0 := if negb (blocked s =? rl_blockModeNone) then nextIdle s pto
-             else if negb (nextKA s pto =? 0) then nextKA s pto else nextIdle s pto) in *.
-  destruct (blocked s =? rl_blockModeHardBlocked); [exact B|].
-  pose proof (earlier_nz_le ack d0). pose proof (earlier_nz_le loss (earlier_nz ack d0)).
+  intros s d ack loss. unfold arm. destruct (blocked s =? rl_blockModeHardBlocked); [lia|].
+  pose proof (earlier_nz_le ack d). pose proof (earlier_nz_le loss (earlier_nz ack d)).
   destruct (blocked s =? rl_blockModeCongestionLimited); [lia|].
-  pose proof (earlier_nz_le (pacing s) (earlier_nz loss (earlier_nz ack d0))). lia.
+  pose proof (earlier_nz_le (pacing s) (earlier_nz loss (earlier_nz ack d))). lia.
 Qed.
 
-(** ... and exactly at it when nothing else is pending (no keep-alive due, no ACK alarm, no loss timer, no pacing) *)
+Lemma arm_nothing_pending : forall s d, pacing s = 0 -> arm s d 0 0 = d.
+Proof.
+  intros s d Hp. unfold arm. rewrite Hp, !earlier_nz_0.
+  destruct (blocked s =? rl_blockModeHardBlocked); [reflexivity|].
+  destruct (blocked s =? rl_blockModeCongestionLimited); reflexivity.
+Qed.
+
+Lemma base_deadline_hs : forall s pto, hsComplete s = true ->
+  base_deadline s pto = (if negb (blocked s =? rl_blockModeNone) then nextIdle s pto
+                         else if negb (nextKA s pto =? 0) then nextKA s pto else nextIdle s pto).
+Proof. intros s pto H. unfold base_deadline. rewrite H. reflexivity. Qed.
+
+(** after the handshake the timer is never armed later than the idle-timeout instant ... *)
+Lemma deadline_le_idle : forall s pto retire ack loss, sane s -> 0 <= pto -> hsComplete s = true ->
+  maybeResetTimer s pto retire ack loss <= nextIdle s pto.
+Proof.
+  intros s pto retire ack loss Hs Hp Hh. unfold maybeResetTimer.
+  pose proof (base_deadline_le_idle s pto Hs Hp Hh) as B. rewrite <- (base_deadline_hs s pto Hh) in B.
+  pose proof (earlier_nz_le retire (base_deadline s pto)).
+  pose proof (arm_le s (earlier_nz retire (base_deadline s pto)) ack loss). lia.
+Qed.
+
+(** ... and exactly at it when nothing else is pending (no keep-alive due, no connection ID waiting for its
+    retirement, no ACK alarm, no loss timer, no pacing) *)
 Lemma deadline_eq_idle : forall s pto, hsComplete s = true ->
   nextKA s pto = 0 \/ blocked s <> rl_blockModeNone -> pacing s = 0 ->
-  maybeResetTimer s pto 0 0 = nextIdle s pto.
+  maybeResetTimer s pto 0 0 0 = nextIdle s pto.
 Proof.
-  intros s pto Hh Hk Hp. unfold maybeResetTimer. rewrite Hh, Hp. cbn [negb]. rewrite !earlier_nz_0.
-  assert (E : (if negb (blocked s =? rl_blockModeNone) then nextIdle s pto
-               else if negb (nextKA s pto =? 0) then nextKA s pto else nextIdle s pto) = nextIdle s pto).
-  { destruct (blocked s =? rl_blockModeNone) eqn:B; cbn [negb]; [|reflexivity].
-    destruct Hk as [K|K]; [rewrite K; reflexivity | lia]. }
-  rewrite E. destruct (blocked s =? rl_blockModeHardBlocked); [reflexivity|].
-  destruct (blocked s =? rl_blockModeCongestionLimited); reflexivity.
+  intros s pto Hh Hk Hp. unfold maybeResetTimer. rewrite earlier_nz_0, (arm_nothing_pending _ _ Hp), (base_deadline_hs s pto Hh).
+  destruct (blocked s =? rl_blockModeNone) eqn:B; cbn [negb]; [|reflexivity].
+  destruct Hk as [K|K]; [rewrite K; reflexivity | lia].
+Qed.
+
+(** the armed deadline covers every source that is due in the current block mode, and is one of them:
+    the base deadline (handshake / idle / keep-alive) and the next connection-ID retirement always;
+    the ACK alarm and the loss-detection timer unless hard-blocked; the pacing deadline only if not blocked *)
+Lemma earlier_nz_spec : forall t d,
+  (earlier_nz t d = t /\ t <> 0 /\ t < d) \/ (earlier_nz t d = d /\ (t = 0 \/ d <= t)).
+Proof. intros t d. unfold earlier_nz. destruct (negb (t =? 0) && (t <? d)) eqn:E; [left|right]; lia. Qed.
+
+Lemma timer_covers_every_source : forall s pto retire ack loss,
+  let d := maybeResetTimer s pto retire ack loss in
+  d <= base_deadline s pto /\
+  (retire <> 0 -> d <= retire) /\
+  (blocked s <> rl_blockModeHardBlocked -> (ack <> 0 -> d <= ack) /\ (loss <> 0 -> d <= loss)) /\
+  (blocked s <> rl_blockModeHardBlocked -> blocked s <> rl_blockModeCongestionLimited -> pacing s <> 0 -> d <= pacing s) /\
+  (d = base_deadline s pto \/ d = retire \/ d = ack \/ d = loss \/ d = pacing s).
+Proof.
+  intros s pto retire ack loss. cbv zeta. unfold maybeResetTimer, arm.
+  set (b := base_deadline s pto).
+  destruct (earlier_nz_spec retire b) as [(E0 & ? & ?)|(E0 & ?)]; rewrite E0;
+  (destruct (blocked s =? rl_blockModeHardBlocked) eqn:BH; [repeat split; intros; try lia; auto 10|]);
+  match goal with |- context [earlier_nz ack ?d] =>
+    destruct (earlier_nz_spec ack d) as [(E1 & ? & ?)|(E1 & ?)]; rewrite E1 end;
+  match goal with |- context [earlier_nz loss ?d] =>
+    destruct (earlier_nz_spec loss d) as [(E2 & ? & ?)|(E2 & ?)]; rewrite E2 end;
+  (destruct (blocked s =? rl_blockModeCongestionLimited) eqn:BC; [repeat split; intros; try lia; auto 10|]);
+  match goal with |- context [earlier_nz (pacing s) ?d] =>
+    destruct (earlier_nz_spec (pacing s) d) as [(E3 & ? & ?)|(E3 & ?)]; rewrite E3 end;
+  repeat split; intros; try lia; auto 10.
 Qed.
 
 (** so a loop that wakes at its deadline (or earlier) and finds the idle condition false re-arms, and one
@@ -494,28 +536,27 @@ Qed.
 
 (** with keep-alive enabled and block mode none the timer is armed no later than
     lastPacketReceived + max(keepAliveInterval, 1.5 PTO), exactly then if nothing else is pending *)
-Lemma ka_deadline : forall s pto ack loss, ka_state s -> 0 <= pto ->
-  maybeResetTimer s pto ack loss <= lastRecv s + kaEff s pto.
+Lemma ka_base_deadline : forall s pto, ka_state s -> 0 <= pto -> base_deadline s pto = lastRecv s + kaEff s pto.
 Proof.
-  intros s pto ack loss K Hp. destruct (ka_nextKA s pto K Hp) as [E N].
+  intros s pto K Hp. destruct (ka_nextKA s pto K Hp) as [E N].
   destruct K as (Hh & Hc & Hk & Hs & Hl & Hi & Hb).
-  unfold maybeResetTimer. rewrite Hh, Hb. cbn [negb]. rewrite Z.eqb_refl. cbn [negb].
-  apply Z.eqb_neq in N. rewrite N. cbn [negb]. rewrite E.
-  assert (H1 : (rl_blockModeNone =? rl_blockModeHardBlocked) = false) by reflexivity.
-  assert (H2 : (rl_blockModeNone =? rl_blockModeCongestionLimited) = false) by reflexivity.
-  rewrite H1, H2.
-  set (d0 := lastRecv s + kaEff s pto).
-  pose proof (earlier_nz_le ack d0). pose proof (earlier_nz_le loss (earlier_nz ack d0)).
-  pose proof (earlier_nz_le (pacing s) (earlier_nz loss (earlier_nz ack d0))). lia.
+  rewrite (base_deadline_hs s pto Hh), Hb, Z.eqb_refl. cbn [negb].
+  apply Z.eqb_neq in N. rewrite N. cbn [negb]. exact E.
+Qed.
+
+Lemma ka_deadline : forall s pto retire ack loss, ka_state s -> 0 <= pto ->
+  maybeResetTimer s pto retire ack loss <= lastRecv s + kaEff s pto.
+Proof.
+  intros s pto retire ack loss K Hp. unfold maybeResetTimer. rewrite (ka_base_deadline s pto K Hp).
+  pose proof (earlier_nz_le retire (lastRecv s + kaEff s pto)).
+  pose proof (arm_le s (earlier_nz retire (lastRecv s + kaEff s pto)) ack loss). lia.
 Qed.
 
 Lemma ka_deadline_eq : forall s pto, ka_state s -> 0 <= pto -> pacing s = 0 ->
-  maybeResetTimer s pto 0 0 = lastRecv s + kaEff s pto.
+  maybeResetTimer s pto 0 0 0 = lastRecv s + kaEff s pto.
 Proof.
-  intros s pto K Hp Hpc. destruct (ka_nextKA s pto K Hp) as [E N].
-  destruct K as (Hh & Hc & Hk & Hs & Hl & Hi & Hb).
-  unfold maybeResetTimer. rewrite Hh, Hb, Hpc. cbn [negb]. rewrite Z.eqb_refl. cbn [negb].
-  apply Z.eqb_neq in N. rewrite N. cbn [negb]. rewrite E, !earlier_nz_0. reflexivity.
+  intros s pto K Hp Hpc. unfold maybeResetTimer.
+  rewrite earlier_nz_0, (arm_nothing_pending _ _ Hpc). apply ka_base_deadline; assumption.
 Qed.
 
 (** a wake-up at or after that instant queues the PING — the keep-alive branch comes first, so not even an
@@ -663,9 +704,9 @@ Lemma idle_not_late_history : forall s0 l pto,
   let T := Z.max (hist_lastRecv (lastRecv s0) l) (hist_firstAE 0 l) + Z.max (hist_idle (cf s0) (idleTimeout s0) l) (3 * pto) in
   closeErr s = None -> hsComplete s = true ->
   (nextKA s pto = 0 -> pacing s = 0 ->
-     maybeResetTimer s pto 0 0 = T /\
-     closeErr (step s (EvWake (maybeResetTimer s pto 0 0) pto)) = Some {| ce_err := EIdle; ce_immediate := true |}) /\
-  (forall ack loss, sane s -> 0 <= pto -> maybeResetTimer s pto ack loss <= T).
+     maybeResetTimer s pto 0 0 0 = T /\
+     closeErr (step s (EvWake (maybeResetTimer s pto 0 0 0) pto)) = Some {| ce_err := EIdle; ce_immediate := true |}) /\
+  (forall retire ack loss, sane s -> 0 <= pto -> maybeResetTimer s pto retire ack loss <= T).
 Proof.
   intros s0 l pto H0 F0 Hpos s T Hn Hhs.
   destruct (run_fields l s0) as [A [B C]]. rewrite F0 in B. fold s in A, B, C.
@@ -685,7 +726,7 @@ Proof.
   - intros Hk Hp. rewrite (deadline_eq_idle s pto Hhs (or_introl Hk) Hp). split; [exact ET|].
     cbn [step]. rewrite Hn. rewrite (wake_at_idle_deadline_fires s pto Hhs Hk).
     unfold destroyImpl, setCloseError. rewrite Hn. reflexivity.
-  - intros ack loss Hs Hp. rewrite <- ET. apply deadline_le_idle; assumption.
+  - intros retire ack loss Hs Hp. rewrite <- ET. apply deadline_le_idle; assumption.
 Qed.
 
 Lemma step_hs : forall s e, hsComplete s = true -> hsComplete (step s e) = true.
